@@ -794,9 +794,43 @@ def split_date(line):
 
 
 # =========================================================================== the check
+def oracle_any(case):
+    return oracle_history(case) if "kind" in case else oracle(case)
+
+
+CONFIRMED = {}     # key -> [reproduces in a fresh process?, attempts]
+
+
+def reproduces_fresh(case):
+    """Does the case fail in a brand-new interpreter too (what --replay will do)?"""
+    import subprocess
+    import sys
+    code = ("import json,sys,warnings; warnings.simplefilter('ignore'); from harness.props import c07; "
+            "sys.exit(1 if c07.oracle_any(json.loads(sys.stdin.read())) else 0)")
+    p = subprocess.run([sys.executable, "-B", "-c", code], input=json.dumps(fw.jsonable(case)), capture_output=True, text=True,
+                       cwd=fw.ROOT)
+    return p.returncode == 1
+
+
+def fail_case(ctx, res, case, source):
+    """Report a failing case; the first failing cases of every key are re-run in a fresh process, so that a failure
+    that only shows after earlier calls in THIS process (leaked module/object state) is not reported with a replay
+    that cannot reproduce it - the history oracles report those with the history as the replay."""
+    key = res[0]
+    st = CONFIRMED.setdefault(key, [False, 0])
+    if not st[0] and st[1] < 4:
+        st[1] += 1
+        st[0] = reproduces_fresh(case)
+    if st[0]:
+        ctx.fail(key, res[1], case, True, source)
+    else:
+        ctx.fail("state-dependent:" + key, "fails only after earlier calls in the same process (a fresh process passes it; see the "
+                 "history violations): " + res[1], case, False, source)
+
+
 def report(ctx, case, res, source):
     if res:
-        ctx.fail(res[0], res[1], case, True, source)
+        fail_case(ctx, res, case, source)
 
 
 def corr_simple(ctx, name, fn, in_type, inputs, impl, lit, prop_oracle=None):
@@ -811,7 +845,7 @@ def corr_simple(ctx, name, fn, in_type, inputs, impl, lit, prop_oracle=None):
         pc = prop_oracle(inputs[i]) if prop_oracle else None     # the public-API case that exercises this input
         res = oracle(pc) if pc else None
         if res:
-            ctx.fail(res[0], res[1], pc, True, "corr")
+            fail_case(ctx, res, pc, "corr")
         else:
             ctx.broken.append("correspondence %s: model and implementation disagree on %s (implementation gives %r)"
                               % (name, json.dumps(cases[i][2]), cases[i][1]))
@@ -875,6 +909,18 @@ def run(ctx):
     corr_simple(ctx, "cookie_load", "(fun s => cookie_val (cookie_load s))", "str", hb,
                 lambda b: jar_obs(b.decode("latin-1")), cstr)
 
+    # ONE Cookie() loaded twice = the model's loop continued on the same dict
+    def impl_load2(pq):
+        jar = ck.Cookie()
+        jar.load(pq[0].decode("latin-1"))
+        jar.load(pq[1].decode("latin-1"))
+        keys = sorted(ck._c_keys)
+        return [[k, m.value, [[a, m[a]] for a in keys if m[a] is not None]] for k, m in jar.items()]
+    twice = [(hb[rng.randrange(len(hb))], hb[rng.randrange(len(hb))]) for _ in range(n // 2)]
+    corr_simple(ctx, "cookie_load_twice",
+                "(fun p => cookie_val (load_go (parse_cookie_raw (snd p)) None (cookie_load (fst p))))", "(str * str)", twice,
+                impl_load2, lambda pq: cpair(cstr(pq[0]), cstr(pq[1])))
+
     def impl_req(b):
         from webob import Request
         return [list(kv) for kv in Request({"HTTP_COOKIE": b.decode("latin-1")}).cookies.items()]
@@ -909,7 +955,7 @@ def run(ctx):
         for i in bad[:5]:
             res = oracle(jcases[i])
             if res:
-                ctx.fail(res[0], res[1], jcases[i], True, "corr")
+                fail_case(ctx, res, jcases[i], "corr")
             else:
                 ctx.broken.append("correspondence %s: model and implementation disagree on %s (implementation gives %r)"
                                   % (api, json.dumps(jcases[i]), cases[i][1]))
@@ -925,6 +971,7 @@ def run(ctx):
 
     # ------------------------------------------------------------------ oracle sweep on the public API
     run_oracle(ctx)
+    run_histories(ctx)
     ctx.extra["rule"] = (
         "correspondence: each model function against the real function on generated inputs (all 256 single octets, random "
         "byte strings weighted towards the three alphabets and the delimiters, noisy Cookie/Set-Cookie headers, requests with "
@@ -979,7 +1026,7 @@ class Tally:
             if fast is not None or LAST["emitted"]:
                 self.nontrivial += 1
         if res:
-            self.ctx.fail(res[0], res[1], case, True, self.name)
+            fail_case(self.ctx, res, case, self.name)
 
     def done(self):
         self.ctx.oracle_count(self.name, self.n, self.nontrivial)
@@ -1052,6 +1099,274 @@ def run_oracle(ctx):
     t.done()
 
 
+# =========================================================================== histories: long-lived objects, module state
+DATE_SUB = re.compile(r"expires=(?:Mon|Tue|Wed|Thu|Fri|Sat|Sun), \d\d-[A-Z][a-z]{2}-\d{4} \d\d:\d\d:\d\d GMT")
+
+
+def canon_result(r):
+    """Result of one make_cookie/set_cookie call with the clock taken out (the delete date has a 2-digit year and stays)."""
+    if isinstance(r, Err):
+        return "raises " + r.name
+    return DATE_SUB.sub("expires=<DATE>", r)
+
+
+def hist_calls(case):
+    """The same calls in one process in the given order, in reverse order and once more in the given order, with
+    SAMESITE_VALIDATION flipping from call to call as each case says: every call must give what it gives when it is
+    the first call (module-level state - escape maps, quoters, the flag - must not leak from call to call), every
+    emitted line must satisfy the statement, and the flag must be left as it was found."""
+    calls = case["calls"]
+    ck = C()
+    flag0 = ck.SAMESITE_VALIDATION
+    runs = []
+    for order in (list(range(len(calls))), list(reversed(range(len(calls)))), list(range(len(calls)))):
+        out = [None] * len(calls)
+        for i in order:
+            out[i] = canon_result(call_api(calls[i])[0])
+        runs.append(out)
+    if ck.SAMESITE_VALIDATION is not flag0:
+        return "module-state:flag-not-restored", "SAMESITE_VALIDATION left as %r" % (ck.SAMESITE_VALIDATION,)
+    for i, c in enumerate(calls):
+        if not (runs[0][i] == runs[1][i] == runs[2][i]):
+            return ("module-state:call-depends-on-history",
+                    "call #%d %r gives %r in the given order, %r in reverse order, %r the third time"
+                    % (i, c, runs[0][i], runs[1][i], runs[2][i]))
+    for i, c in enumerate(calls):
+        res = oracle(c)
+        if res:
+            return "history:" + res[0], "call #%d of the history: %s" % (i, res[1])
+    return None
+
+
+def hist_response(case):
+    """ONE Response receives all the set_cookie calls: after each call its Set-Cookie headers must be exactly the lines
+    fresh Responses give for the calls so far (earlier lines untouched, one line appended per successful call, nothing
+    appended by a call that raises), the arguments must not be mutated."""
+    from webob import Response
+    resp = Response()
+    base = list(resp.headerlist)
+    want = []
+    for i, c in enumerate(case["calls"]):
+        c = dict(c, api="set_cookie")
+        fresh, _, _ = call_api(c)
+        name = "".join(chr(x) for x in c["name"])
+        value = dec_value(c.get("value"))
+        kw = dict(max_age=dec_max_age(c.get("max_age")), path=dec_attr(c.get("path")), domain=dec_attr(c.get("domain")),
+                  secure=c.get("secure", False), httponly=c.get("httponly", False), comment=dec_attr(c.get("comment")),
+                  samesite=dec_attr(c.get("samesite")))
+        kw_before = dict(kw)
+        with Validation(c.get("validate", True)), warnings.catch_warnings():
+            warnings.simplefilter("ignore")
+            r = catch(resp.set_cookie, name, value, **kw)
+        if kw != kw_before:
+            return "argument-mutated", "set_cookie changed its keyword arguments: %r -> %r" % (kw_before, kw)
+        if isinstance(fresh, Err) != isinstance(r, Err) or (isinstance(r, Err) and r != fresh):
+            return ("response-history:raise-differs", "call #%d %r: the long-lived Response gives %r, a fresh one %r" % (i, c, r, fresh))
+        if not isinstance(fresh, Err):
+            want.append(canon_result(fresh))
+        got = [canon_result(v) for k, v in resp.headerlist[len(base):]]
+        keys = [k for k, v in resp.headerlist[len(base):]]
+        if resp.headerlist[:len(base)] != base or got != want or any(k != "Set-Cookie" for k in keys):
+            return ("response-history:set-cookie-lines",
+                    "after call #%d %r the Response carries %r, fresh Responses give %r" % (i, c, got, want))
+        if [canon_result(v) for v in resp.headers.getall("Set-Cookie")] != want:
+            return "response-history:headers-view", "resp.headers.getall('Set-Cookie') differs from the header list"
+    return None
+
+
+def morsel_state(m):
+    return [m.name, m.value, sorted((k, v) for k, v in dict(m).items())]
+
+
+def hist_jar(case):
+    """ONE Cookie() is loaded with several headers and serialised repeatedly: serialize()/str() are repeatable, do not
+    change any morsel, and the jar equals what fresh Cookie(header) objects give, header by header (later wins)."""
+    ck = C()
+    jar = ck.Cookie()
+    want = {}
+    for i, h in enumerate(case["headers"]):
+        jar.load(h)
+        fresh = ck.Cookie(h)
+        for k, m in fresh.items():
+            want[k] = morsel_state(m)
+        before = {k: morsel_state(m) for k, m in jar.items()}
+        if before != want:
+            return ("jar-history:load", "after loading %r into one Cookie() it holds %r, fresh jars give %r"
+                    % (case["headers"][:i + 1], before, want))
+        texts = []
+        for rep in range(3):
+            r = catch(lambda: [jar.serialize(), jar.serialize(False), str(jar), [m.serialize() for m in jar.values()],
+                               [m.serialize(False) for m in jar.values()]])
+            texts.append(r)
+            after = {k: morsel_state(m) for k, m in jar.items()}
+            if after != before:
+                return ("jar-history:serialize-mutates", "serialize() changed the morsels of Cookie loaded with %r: %r -> %r"
+                        % (case["headers"][:i + 1], before, after))
+        if not (texts[0] == texts[1] == texts[2]):
+            return ("jar-history:serialize-not-repeatable", "Cookie loaded with %r serialises as %r, then %r, then %r"
+                    % (case["headers"][:i + 1], texts[0], texts[1], texts[2]))
+        fr = catch(lambda: [m.serialize() for m in fresh.values()])
+        mine = catch(lambda: [jar[k].serialize() for k in sorted(fresh.keys())])
+        if fr != mine:
+            return ("jar-history:morsel-serialize", "morsels of %r serialise as %r in the long-lived jar, %r in a fresh one"
+                    % (h, mine, fr))
+    return None
+
+
+def hist_morsel(case):
+    """ONE Morsel built by hand, serialised several times in both forms, attributes changed in between: every
+    serialisation equals that of a brand-new Morsel with the same attributes, and reads do not change it."""
+    ck = C()
+
+    def build(upto):
+        m = ck.Morsel(case["mname"].encode("ascii"), bytes.fromhex(case["mvalue"]))
+        for k, v in case["steps"][:upto]:
+            setattr(m, k, bytes.fromhex(v) if isinstance(v, str) else v)
+        return m
+    with Validation(True), warnings.catch_warnings():
+        warnings.simplefilter("ignore")
+        m = build(0)
+        for i in range(len(case["steps"]) + 1):
+            if i:
+                k, v = case["steps"][i - 1]
+                setattr(m, k, bytes.fromhex(v) if isinstance(v, str) else v)
+            st = morsel_state(m)
+            got = [catch(m.serialize), catch(m.serialize, False), catch(m.serialize), catch(str, m)]
+            if morsel_state(m) != st:
+                return "morsel-history:serialize-mutates", "serialize() changed the Morsel: %r -> %r" % (st, morsel_state(m))
+            f = build(i)
+            want = [catch(f.serialize), catch(f.serialize, False), catch(f.serialize), catch(str, f)]
+            if got != want:
+                return ("morsel-history:differs-from-fresh", "after steps %r the long-lived Morsel serialises as %r, a fresh one as %r"
+                        % (case["steps"][:i], got, want))
+    return None
+
+
+def hist_environ(case):
+    """ONE environ (one Request) serves several different Cookie headers in sequence, each read more than once and
+    through different accessors: every answer equals that of a brand-new environ, reading does not change HTTP_COOKIE."""
+    from webob import Request
+    env = {"REQUEST_METHOD": "GET"}
+    req = Request(env)
+    for i, h in enumerate(case["headers"]):
+        env["HTTP_COOKIE"] = h
+        fresh = catch(lambda: list(Request({"HTTP_COOKIE": h}).cookies.items()))
+        for rep in range(2):
+            got = catch(lambda: list(req.cookies.items()))
+            if got != fresh:
+                return ("environ-history:cookies", "header #%d %r read through a long-lived environ gives %r, a fresh environ %r "
+                        "(headers so far %r)" % (i, h, got, fresh, case["headers"][:i + 1]))
+            if not isinstance(fresh, Err):
+                other = [catch(lambda: sorted(req.cookies.keys())), catch(lambda: len(req.cookies)),
+                         catch(lambda: [req.cookies.get(k) for k, _ in fresh]), catch(lambda: [k in req.cookies for k, _ in fresh])]
+                wanto = [sorted(k for k, _ in fresh), len(fresh), [v for _, v in fresh], [True] * len(fresh)]
+                if other != wanto:
+                    return "environ-history:accessors", "keys/len/get/in on %r give %r, expected %r" % (h, other, wanto)
+            if env.get("HTTP_COOKIE") != h:
+                return "environ-history:header-changed", "reading request.cookies changed HTTP_COOKIE %r -> %r" % (h, env.get("HTTP_COOKIE"))
+    return None
+
+
+HISTORY_KINDS = {"calls": hist_calls, "response": hist_response, "jar": hist_jar, "morsel": hist_morsel, "environ": hist_environ}
+
+
+def oracle_history(case):
+    with warnings.catch_warnings():
+        warnings.simplefilter("ignore")
+        return HISTORY_KINDS[case["kind"]](case)
+
+
+def r_emitted_pairs(rng, n):
+    """n rendered name=value pairs (several of them quoted) with their plain values"""
+    ck = C()
+    out = []
+    for _ in range(n):
+        nm = rng.choice(TOKEN_NAMES[:6])
+        v = rng.choice([b"x y", b"a;b", b'q"q', b"\xc3\xa9", b"plain", b"", b"x[y]", b"\\", b"1,2"]) if rng.random() < 0.6 else r_bytes(rng, 5)
+        with warnings.catch_warnings():
+            warnings.simplefilter("ignore")
+            out.append(nm + "=" + ck._value_quote(v).decode("latin-1"))
+    return out
+
+
+def r_history(rng, kind):
+    n = rng.randrange(2, 7)
+    if kind in ("calls", "response"):
+        calls = []
+        same_len = r_bytes(rng, 4)
+        for i in range(n):
+            c = r_case(rng, api="set_cookie" if kind == "response" else None, malformed=(rng.random() < 0.25))
+            x = rng.random()
+            if x < 0.3:      # values of equal length side by side
+                c["value"] = enc_value(bytes(rng.choice(ALLOWED_SAMPLE + DELIM_SAMPLE) for _ in range(len(same_len) or 2)))
+            elif x < 0.45:   # the SameSite=None / Secure rule with the flag going on and off
+                c["samesite"] = enc_value(rng.choice([b"None", b"none", b"Lax", b"bogus"]))
+                c["secure"] = rng.random() < 0.5
+                c["validate"] = (i % 2 == 0)
+            calls.append(c)
+            if x < 0.45 and rng.random() < 0.7:
+                # the same request again with only the module flag flipped (and once more flipped back)
+                c2 = dict(c, validate=not c["validate"])
+                calls.append(c2)
+                if rng.random() < 0.5:
+                    calls.append(dict(c))
+        return {"kind": kind, "calls": calls}
+    if kind == "jar":
+        hs = []
+        for _ in range(n):
+            parts = r_emitted_pairs(rng, rng.randrange(1, 4))
+            h = []
+            for p in parts:
+                h.append(p)
+                if rng.random() < 0.6:
+                    h.append(rng.choice(["Path=/", "Path=/a\\073b", "Domain=example.com", "Max-Age=5", "Comment=\"c d\"",
+                                         "expires=" + DELETE_DATE, "SameSite=Lax", "SameSite=None", "secure", "HttpOnly"]))
+            hs.append("; ".join(h))
+        return {"kind": "jar", "headers": hs}
+    if kind == "morsel":
+        steps = []
+        for _ in range(n):
+            k = rng.choice(["path", "domain", "comment", "max_age", "secure", "httponly", "samesite", "expires"])
+            if k in ("secure", "httponly"):
+                v = rng.random() < 0.7
+            elif k == "max_age":
+                v = rng.choice([0, 5, 3600])
+            elif k == "samesite":
+                v = rng.choice([b"Lax", b"strict", b"None"]).hex()
+            elif k == "expires":
+                v = DELETE_DATE.encode().hex()
+            else:
+                v = rng.choice([b"/", b"/a b", b"x;y", b"", b"e.example", b'"c"']).hex()
+            steps.append([k, v])
+        return {"kind": "morsel", "mname": rng.choice(TOKEN_NAMES[:6]), "mvalue": r_bytes(rng, 5).hex(), "steps": steps}
+    # environ: headers of equal length and of equal prefix side by side, several quoted values in one header
+    hs = []
+    for _ in range(n):
+        x = rng.random()
+        if x < 0.5 and hs:
+            prev = hs[-1]
+            h = prev[:-1] + rng.choice("abc019") if prev else "a=1"
+        else:
+            h = "; ".join(r_emitted_pairs(rng, rng.randrange(0, 4)))
+        hs.append(h)
+    return {"kind": "environ", "headers": hs}
+
+
+def run_histories(ctx):
+    for kind in ("calls", "response", "jar", "morsel", "environ"):
+        rng = ctx.sub_rng("history-" + kind)
+        n = ctx.scale(150 if kind in ("calls", "response") else 250, 3000)
+        seen = set()
+        fails = 0
+        for _ in range(n):
+            h = r_history(rng, kind)
+            seen.add(json.dumps(h, sort_keys=True))
+            res = oracle_history(h)
+            if res:
+                fail_case(ctx, res, h, "history-" + kind)
+        ctx.oracle_count("history-" + kind, n, len(seen))
+
+
 def oracle_fast(v):
     """The core of the statement for one byte value (used for the bulk of the 2-byte sweep in the quick tier):
     printable, no exposed delimiter, denotes v, and comes back as v next to other cookies."""
@@ -1085,8 +1400,8 @@ def replay(ctx, path):
     warnings.simplefilter("ignore")
     data = json.load(open(path))
     case = data["case"]
-    if isinstance(case, dict) and "name" in case:
-        res = oracle(case)
+    if isinstance(case, dict) and ("name" in case or "kind" in case):
+        res = oracle_history(case) if "kind" in case else oracle(case)
         if res:
             print("VIOLATION property=C07 replay=%s" % path)
             print("  (%s) %s" % res)
